@@ -28,7 +28,7 @@ def gen_prog(rng, depth, meas_avail, big=False):
             items.append(('op', {'text': 'MPP X0*Z5 Y2', 'meas': 2, 'qubits': 6}))
             added += 2
         elif k == 'MPAD':
-            items.append(('op', {'text': 'MPAD 0 1', 'meas': 2, 'qubits': 2, 'qubits_stats': 0}))   # MPAD's 0/1 targets count as qubit-valued targets
+            items.append(('op', {'text': 'MPAD 0 1', 'meas': 2, 'qubits': 0, 'qubits_stats': 0}))   # MPAD's 0/1 targets are literal bits, not qubits (D31)
             added += 2
         elif k == 'DET' and avail:
             lb = [rng.randint(1, min(avail, 9)) for _ in range(rng.choice([1, 2]))]
@@ -196,7 +196,7 @@ def run(rep, tier):
             continue
         ref = reference(items)
         try:
-            out = svh.request('cstats', [500], text)
+            out = svh.request('cstats', [500, rng.randrange(1 << 30)], text)
         except core.Crash as e:
             rep.violation('Circuit loop-aware queries', 'oob' if 'Sanitizer' in e.stderr else 'crash', text, str(e) + e.stderr[-1500:])
             continue
@@ -206,6 +206,8 @@ def run(rep, tier):
         got = {}
         qc = {}
         dc = {}
+        dsub = {}
+        dsubq = {}
         for l in out:
             t = l.split(' ', 1)
             if t[0] == 'qcoord':
@@ -214,6 +216,12 @@ def run(rep, tier):
             elif t[0] == 'dcoord':
                 q, c = t[1].split(' ', 1)
                 dc[int(q)] = parse_coords(c)
+            elif t[0] == 'dsub':
+                r_, q, c = (t[1].split(' ', 2) + [''])[:3]
+                dsub.setdefault(int(r_), {})[int(q)] = parse_coords(c)
+            elif t[0] == 'dsubq':
+                tt = t[1].split(' ')
+                dsubq[int(tt[0])] = [int(x) for x in tt[1:]]
             elif t[0] == 'final_coord_shift':
                 got['shift'] = parse_coords(t[1])
             elif t[0] in ('stats', 'dcoord_single_last'):
@@ -237,6 +245,13 @@ def run(rep, tier):
                           'qubit wins, shifted by the coordinate shift in effect)', ref['qc'], qc)
         if ref['det'] <= 500 and dc != ref['dc']:
             rep.violation('Circuit::get_detector_coordinates', 'wrong-result', text, 'differs from the unrolled stream', ref['dc'], dc)
+        if ref['det'] <= 500:
+            for r_, want in dsubq.items():
+                exp_sub = {k: ref['dc'].get(k) for k in want}
+                if dsub.get(r_, {}) != exp_sub:
+                    rep.violation('Circuit::get_detector_coordinates', 'wrong-result', {'circuit': text, 'indices': want},
+                                  'a query for several (not all) detector indices differs from the unrolled stream', exp_sub, dsub.get(r_, {}))
+                    break
         toks = coords_tokens(items)
         if any(t.startswith('Q') for t in toks):
             coord_in.append('qcoords 16 5 1 ; ' + ' ; '.join(toks))
@@ -266,9 +281,13 @@ def run(rep, tier):
                     qcb[int(q)] = parse_coords(c)
             coord_in.append('qcoords 16 5 0 ; ' + ' ; '.join(toks))
             coord_meta.append((text, qcb, parse_coords(got.get('final_coord_shift', '')), False))
-        for key, name in (('meas', 'count_measurements'), ('det', 'count_detectors'), ('tick', 'count_ticks')):
+        stt = got.get('stats', '').split(' ')
+        for key, name, spos in (('meas', 'count_measurements', 2), ('det', 'count_detectors', 0), ('tick', 'count_ticks', 4)):
             model_in.append('counts ' + ' '.join(counts_tokens(items, key)))
             meta.append((text, name, got.get(name)))
+            if len(stt) == 7:
+                model_in.append('counts ' + ' '.join(counts_tokens(items, key)))
+                meta.append((text, 'compute_stats (%s)' % key, stt[spos]))
     mo = core.run_svm('\n'.join(model_in) + '\n')
     for (text, name, got), m in zip(meta, mo):
         sat, exact = m.split(' ')
